@@ -88,8 +88,24 @@ Fixpoint named_in (t : rust_ty) : list string :=
   | _ => []
   end.
 
+(** identifiers the fixed template text *binds* at the top level of the module (function parameters, [let] and
+    [if let] patterns): a [pub const] of the same name turns the binding into a constant pattern (E0308 / E0005) *)
+Definition root_binders (o : out) : list string :=
+  ["device"; "source"]
+  ++ (match o_bind_groups o with
+      | Some bg => "pass" :: map (fun ab => "bind_group" +s+ N_to_string (fst ab)) (bg_fn_params bg)
+      | None => [] end)
+  ++ (if o_vertex_tpl o || o_fragment_tpl o then ["module"; "entry"] else [])
+  ++ (match o_fentries o with [] => [] | _ => ["targets"] end)
+  ++ (match o_overrides o with Some _ => ["overrides"; "entries"; "value"] | None => [] end)
+  ++ (match o_vstructs o with [] => [] | _ => ["step_mode"] end)
+  ++ flat_map ve_params (o_ventries o).
+Definition const_captures_binder (o : out) : bool :=
+  existsb (fun k => existsb (String.eqb (k_name k)) (root_binders o)) (o_consts o).
+
 Definition rust_wf (o : out) : bool :=
   negb (existsb is_keyword (out_idents o))
+  && negb (const_captures_binder o)
   && str_nodup (type_names o)
   && str_nodup (value_names o)
   && negb (existsb (fun n => existsb (String.eqb n) prelude_names) (map s_name (o_structs o)))
